@@ -50,6 +50,11 @@ SHARD_TIMEOUT = {"quick": 600, "thorough": 3000}
 
 def plan(tier, seed):
     shards = pwork.plan(tier, seed)
+    for sh in shards:
+        if sh["w"] == "gen":
+            # some commands fill one optional tag slot twice (the parser keeps the last tag):
+            # the claim here is about every accepted input
+            sh["repeat"] = 0.15
     n = 1500 if tier == "quick" else 30000
     k = 8 if tier == "quick" else 32
     for i, (s, e) in enumerate(split(n, k)):
@@ -221,6 +226,11 @@ def check_removal(body, exts, removed, rng, res: Result, label):
     j = rsieve.judge(data)
     if j.v != rsieve.REJECT or not j.reason.startswith("EXT_NOT_LOADED:"):
         res.count("removal-skipped:%s" % j.v)
+        if j.v == rsieve.UNSPEC:
+            # nothing is claimed about the message (e.g. a tag slot filled twice), but if
+            # the reduced script is accepted the gate walk still applies to it
+            res.count("removal-unspec-through-the-gate-walk")
+            check_accept("removal-unspec", data, {}, res)
         return
     want = j.reason.split(":", 1)[1]
     ftoks = g.require_tokens(exts) + body
@@ -255,6 +265,7 @@ def check_removal(body, exts, removed, rng, res: Result, label):
 def run_removal_gen(shard, res):
     rng = random.Random(shard["rs"])
     g = gen.ScriptGen(rng, maxdepth=3, hostile=0.2)
+    g.repeat_slot = 0.2
     for i in range(shard["n"]):
         g.maxdepth = rng.choice([0, 1, 2, 3])
         body, exts = g.body()
